@@ -62,6 +62,14 @@ def _rej(i):
     return True
 
 
+def _rec(i):
+    """record expression: logs its evaluation, value = current step"""
+    t = _now()
+    _script.LOG.append(("rec", i, t))
+    return t
+
+
+_script.rec = _rec
 _script.rej = _rej
 _script.a = _a
 _script.ev = _ev
